@@ -181,6 +181,93 @@ def witness_cases(fixed):
     return W
 
 
+NODE_KEYS = ["tunnox:user:1", "tunnox:persist:mapping:2", "tunnox:port_mapping:1", "tunnox:client_mappings:2", "webhook:1",
+             "tunnox:conn_state:1", "tunnox:id:2", "tunnox:session:1", "plain:1"]
+
+
+def nodes_witnesses():
+    """the cross-node histories named in the follow-up: A sets v1, B sets v2, A sets v1 again, a cold node reads; A sets, B deletes, A sets again"""
+    W = []
+    for key, shared in (("tunnox:user:1", False), ("tunnox:user:1", True), ("tunnox:port_mapping:1", False), ("tunnox:port_mapping:1", True)):
+        st = lambda n, op, v=0: {"node": n, "op": {"op": op, "k": 0, "v": v}}
+        probes = [st(-1, "get"), st(-1, "exists"), st(0, "get"), st(1, "get"), st(2, "get")]
+        W.append({"mode": "nodes", "shared": shared, "pers": True, "nodes": 3, "keys": [key], "kinds": ["s"], "init": [],
+                  "steps": [st(0, "set", 1), st(-1, "get"), st(1, "set", 2), st(-1, "get"), st(0, "set", 1)] + probes})
+        W.append({"mode": "nodes", "shared": shared, "pers": True, "nodes": 3, "keys": [key], "kinds": ["s"], "init": [],
+                  "steps": [st(0, "set", 1), st(1, "del"), st(-1, "get"), st(0, "set", 1)] + probes})
+        W.append({"mode": "nodes", "shared": shared, "pers": True, "nodes": 3, "keys": [key], "kinds": ["s"], "init": [{"tier": 2, "k": 0, "v": 1}],
+                  "steps": [st(0, "get"), st(1, "set", 2), st(0, "set", 1)] + probes})
+    return W
+
+
+def nodes_case(rng, cats, fixed):
+    shared, pers = rng.random() < 0.5, rng.random() < 0.85
+    nn = rng.choice([2, 3])
+    keys = rng.sample(NODE_KEYS, rng.choice([1, 1, 2]))
+    init = []
+    for ki, key in enumerate(keys):
+        cat = cats[key][0]
+        two = pers and cat in (1, 3)
+        sh = shared and cat in (2, 3)
+        m = rng.randrange(4)
+        v = rng.randrange(1, 4)
+        if m == 0 or not (two or sh):
+            continue
+        if two:
+            init.append({"tier": 2, "k": ki, "v": v})
+        if sh and (m >= 2 or not two):
+            init.append({"tier": 1, "k": ki, "v": v})
+        if not sh and two and m == 3:
+            init.append({"tier": 10 + rng.randrange(nn), "k": ki, "v": v})
+    steps = []
+    for _ in range(rng.choice([3, 5, 8, 12])):
+        k = rng.randrange(len(keys))
+        node = rng.randrange(nn)
+        opn = rng.choice(["set", "set", "set", "del", "get", "exists"] + (["setnx"] if fixed else []))
+        # small value space on purpose: re-writing a value a node has already seen is the interesting case
+        steps.append({"node": node, "op": {"op": opn, "k": k, "v": rng.randrange(1, 4)}})
+        if opn in ("set", "del", "setnx"):
+            if rng.random() < 0.8:
+                steps.append({"node": -1, "op": {"op": rng.choice(["get", "get", "exists"]), "k": k, "v": 0}})
+            if rng.random() < 0.4:
+                steps += [{"node": j, "op": {"op": "get", "k": k, "v": 0}} for j in range(nn)]
+    return {"mode": "nodes", "shared": shared, "pers": pers, "nodes": nn, "keys": keys, "kinds": ["s"] * len(keys), "init": init, "steps": steps}
+
+
+def alias_cases(rng, cats, n_random):
+    """cache tiers hand lists through BY REFERENCE (the real memory.Storage behaviour); a single tier-call failure at every
+    position of a get / remove / append / get script, alone and with an interleaved reader"""
+    out = []
+    keys = ["tunnox:user:1", "tunnox:client_mappings:1", "tunnox:conn_state:1", "tunnox:temp:1"]
+    for key, shared, pers, warm in itertools.product(keys, (True, False), (True, False), (True, False)):
+        cat = cats[key][0]
+        two = pers and cat in (1, 3)
+        if not warm and not two:
+            continue
+        ct = 1 if (cat in (2, 3) and shared) else 0
+        init = ([{"tier": ct, "k": 0, "l": [1, 2, 3]}] if warm else []) + ([{"tier": 2, "k": 0, "l": [1, 2, 3]}] if two else [])
+        for script in ([("get", 0), ("remove", 1), ("append", 4), ("get", 0)], [("get", 0), ("append", 4), ("remove", 2), ("get", 0)]):
+            ops = [{"op": o, "k": 0, "v": v} for o, v in script]
+            for pos in range(-1, 9):
+                faults = [i == pos for i in range(9)]
+                out.append({"mode": "sched", "raw": True, "shared": shared, "pers": pers, "keys": [key], "kinds": ["l"], "init": init,
+                            "threads": [{"ops": ops, "faults": faults}, {"ops": [{"op": "get", "k": 0, "v": 0}], "faults": []}],
+                            "sched": [], "max_wb": 6, "reader": True})
+        # a reader between the remover's read and its writes
+        for sched in ([0, 1, 1, 0, 0], [0, 0, 1, 1, 0], [1, 0, 1, 0, 0], [0, 1, 0, 1, 0]):
+            out.append({"mode": "sched", "raw": True, "shared": shared, "pers": pers, "keys": [key], "kinds": ["l"], "init": init,
+                        "threads": [{"ops": [{"op": "remove", "k": 0, "v": 1}], "faults": []},
+                                    {"ops": [{"op": "get", "k": 0, "v": 0}, {"op": "get", "k": 0, "v": 0}], "faults": []},
+                                    {"ops": [{"op": "get", "k": 0, "v": 0}], "faults": []}],
+                        "sched": sched, "max_wb": 6, "reader": True})
+    g = Gen(rng, cats, True)
+    for _ in range(n_random):
+        c = g.case()
+        c["raw"] = True
+        out.append(c)
+    return out
+
+
 def exhaustive_cases(cats):
     """all interleavings of two callers (one operation each) on one key x every placement of the first write-back,
     for every key class and tier configuration"""
@@ -237,12 +324,25 @@ def enc_res(r):
 
 
 def modelled(c):
-    return c["mode"] == "sched" and all(o["op"] in OPC for t in c["threads"] for o in t["ops"])
+    if c["mode"] == "nodes":
+        return True
+    return c["mode"] == "sched" and not c.get("raw") and all(o["op"] in OPC for t in c["threads"] for o in t["ops"])
 
 
 def case_value(c, o, fixed):
     if c["mode"] == "cat":
         return [1, [], [k.encode() for k in c["keys"]], [], [], [], 0, [[cat, bool(sh)] for cat, sh in zip(o["cats"], o["cache_shared"])]]
+    if c["mode"] == "nodes":
+        cfgv = [bool(c["shared"]), bool(c["pers"]), bool(fixed["incr"]), bool(fixed["setnx"])]
+        init = [[i["tier"], i["k"], enc_val(i)] for i in c["init"]]
+        steps = []
+        for st in c["steps"]:
+            op = st["op"]
+            code = OPC[op["op"]]
+            steps.append([st["node"] if st["node"] >= 0 else c["nodes"], [code, op["k"], enc_val(op) if code in (0, 7) else op.get("v", 0)]])
+        tier = lambda t: [[e[0], enc_obs_val(e[1])] for e in t]
+        return [2, cfgv, [k.encode() for k in c["keys"]], init, steps, [], c["nodes"],
+                [[enc_res(r) for r in o["results"]], [tier(t) for t in o["locals"]], tier(o["shared"]), tier(o["pers"])]]
     cfgv = [bool(c["shared"]), bool(c["pers"]), bool(fixed["incr"]), bool(fixed["setnx"])]
     init = [[i["tier"], i["k"], enc_val(i)] for i in c["init"]]
     ths = []
@@ -330,6 +430,16 @@ def classify(c, o, v, fixed):
     return kind
 
 
+def classify_nodes(c, o, v):
+    """a stale read from a node whose PRIVATE local cache still holds what that node saw earlier is inherent to node-local caching
+    (bounded only by the cache TTL); everything else — cold-cache nodes, shared-cache classes, the writer itself — must be fresh"""
+    cat = o["cats"][v["k"]]
+    local_cache = cat == 1 or (cat == 3 and not c["shared"])
+    if v["kind"] == "cross-node-stale-read" and v["reader"] >= 0 and v["reader"] != v["writer"] and local_cache:
+        return "cross-node-stale-local-cache"
+    return v["kind"]
+
+
 def run(ctx, only_cases=None):
     thorough = ctx.tier == "thorough"
     binary = vlib.build_harness("C14")
@@ -361,6 +471,9 @@ def run(ctx, only_cases=None):
         for f in sorted(glob.glob(os.path.join(vlib.VERIF, "corpus", "C14", "*.json"))):
             cases.append(json.load(open(f)))
         cases += witness_cases(fixed)
+        cases += nodes_witnesses()
+        cases += [nodes_case(rng, cats, fixed["setnx"]) for _ in range(4000 if thorough else 500)]
+        cases += alias_cases(rng, cats, 3000 if thorough else 300)
         g = Gen(rng, cats, fixed["setnx"])
         cases += [g.case() for _ in range(12000 if thorough else 1200)]
         ex = exhaustive_cases(cats)
@@ -389,7 +502,7 @@ def run(ctx, only_cases=None):
 
     outs = vlib.run_harness(binary, cases, timeout=2400)
     nfail, keys_hit = 0, {}
-    stats = {"sched_cases": 0, "cat_cases": 0, "stress_cases": 0, "late_writebacks": 0, "writebacks_spawned": 0, "faults_injected": 0,
+    stats = {"sched_cases": 0, "cat_cases": 0, "stress_cases": 0, "alias_mode_cases": sum(1 for c in cases if c.get("raw")), "nodes_steps": 0, "late_writebacks": 0, "writebacks_spawned": 0, "faults_injected": 0,
              "ops": 0, "predicate_failures_by_key": keys_hit}
     for c, o in zip(cases, outs):
         if o.get("wb_missing") or o.get("overflow"):
@@ -397,14 +510,15 @@ def run(ctx, only_cases=None):
                           "write-back the model expects (or more write-backs than readers appeared)", {"case": c, "observed": o})
         for v in o["viol"]:
             nfail += 1
-            key = classify(c, o, v, fixed) if c["mode"] == "sched" else \
+            key = classify(c, o, v, fixed) if c["mode"] == "sched" else classify_nodes(c, o, v) if c["mode"] == "nodes" else \
                 {"incr-duplicate": "incr-local-nonatomic" if not fixed["incr"] else "incr-duplicate",
                  "list-lost-append": "list-lost-update-overlapping-calls"}.get(v["kind"], v["kind"])
             keys_hit[key] = keys_hit.get(key, 0) + 1
             if keys_hit[key] <= 2 or key not in ctx.known:
-                small = {"logs": o["logs"], "sched": o["sched"], "final": o["final"], "viol": o["viol"]}
+                small = {k2: o[k2] for k2 in ("logs", "sched", "final", "viol", "results", "locals", "shared", "pers") if k2 in o}
                 ctx.violation(key, "real hybrid.Storage: " + v["msg"], {"case": c, "observed": small})
     sc = [(c, o) for c, o in zip(cases, outs) if modelled(c) or c["mode"] == "cat"]
+    nodes_steps = sum(len(c["steps"]) for c in cases if c["mode"] == "nodes")
     terms = [case_value(c, o, fixed) for c, o in sc]
     mism = []
     try:
@@ -420,6 +534,7 @@ def run(ctx, only_cases=None):
     for i in mism[:3]:
         c, o = sc[i]
         what = "Corr/C14.check: category/getCacheForKey of the model and of the real code differ on a key" if c["mode"] == "cat" else \
+            "Corr/C14.check: multi-node Hybrid model (HybridNodes.mexec_seq) and the real hybrid.Storage instances disagree on a sequential cross-node history" if c["mode"] == "nodes" else \
             "Corr/C14.check: Hybrid model and the real hybrid.Storage disagree on a replayed schedule (results, final tier contents or write-backs spawned)"
         pred = None
         try:
@@ -427,7 +542,7 @@ def run(ctx, only_cases=None):
         except Exception:
             pass
         if not ctx.violations:
-            ctx.violation("model-mismatch", what, {"case": c, "observed": {k: o[k] for k in ("logs", "sched", "final", "spawned", "cats", "cache_shared") if k in o},
+            ctx.violation("model-mismatch", what, {"case": c, "observed": {k: o[k] for k in ("logs", "sched", "final", "spawned", "cats", "cache_shared", "results", "locals", "shared", "pers") if k in o},
                                                     "model_predicts": pred}, found_input=False)
     nontriv = set()
     for c, o in zip(cases, outs):
@@ -444,8 +559,13 @@ def run(ctx, only_cases=None):
                 nontriv.add(json.dumps([c["threads"], c["sched"], c["init"], c["keys"], c["shared"], c["pers"]], sort_keys=True))
         elif c["mode"] == "cat":
             stats["cat_cases"] += len(c["keys"])
+        elif c["mode"] == "nodes":
+            stats["nodes_cases"] = stats.get("nodes_cases", 0) + 1
+            if len({st["node"] for st in c["steps"]}) > 1 and any(st["op"]["op"] in ("set", "del", "setnx") for st in c["steps"]):
+                nontriv.add(json.dumps([c["steps"], c["init"], c["keys"], c["shared"], c["pers"]], sort_keys=True))
         else:
             stats["stress_cases"] += 1
+    stats["nodes_steps"] = nodes_steps
     samples = [{"case": c, "observed": {"logs": o["logs"], "sched": o["sched"], "final": o["final"], "viol": o["viol"]}}
                for c, o in list(zip(cases, outs))[:400] if c["mode"] == "sched" and len(json.dumps(o["logs"])) < 1500][:2]
     ctx.coverage.update({
